@@ -16,6 +16,10 @@
     (c) index       `strToTime_index_in_range` (every `s[i]` of value.StrToTime, under the path conditions on
         guards      `len(s)` read off the source, is in range for EVERY length), `limit_in_bounds`,
                     `offset_in_bounds`, `limit_percent_nan_refused` (C07), `cursor_index_inv` (C16);
+                    Csvq/Props/C19Args.lean: `arg_index_in_range` — every index / slice expression on an ARGUMENT
+                    slice of every built-in function (and every constant index of lib/query, lib/action, lib/cli,
+                    lib/option that a length condition of the same function guards) is in range for EVERY number of
+                    arguments; `arg_facts_cover_function_table`;
     (d) nil errors  `nil_error_sites_except_known`: no method call on an error variable on a path where a
                     DIFFERENT error variable is the one known non-nil, except the listed sites;
         recover     `recover_unconditional_except_known`: every `recover()` runs whenever its goroutine
